@@ -45,7 +45,6 @@ type multiUpdateExecutor struct {
 	execContext *types.ExecContext
 }
 
-var rows driver.Rows
 var comma = ","
 
 // NewMultiUpdateExecutor get new multi update executor
@@ -156,7 +155,7 @@ func (u *multiUpdateExecutor) afterImage(ctx context.Context, beforeImages []*ty
 	// use
 	selectSQL, selectArgs := u.buildAfterImageSQL(beforeImage, *metaData)
 
-	rows, err = u.rowsPrepare(ctx, selectSQL, selectArgs)
+	rows, err := u.rowsPrepare(ctx, selectSQL, selectArgs)
 	defer func() {
 		if err := rows.Close(); err != nil {
 			log.Errorf("rows close fail, err:%v", err)
@@ -184,18 +183,16 @@ func (u *multiUpdateExecutor) rowsPrepare(ctx context.Context, selectSQL string,
 		queryer, ok = u.execContext.Conn.(driver.Queryer)
 	}
 	if ok {
-		var err error
-		rows, err = util.CtxDriverQuery(ctx, queryerContext, queryer, selectSQL, selectArgs)
-
+		rows, err := util.CtxDriverQuery(ctx, queryerContext, queryer, selectSQL, selectArgs)
 		if err != nil {
 			log.Errorf("ctx driver query: %+v", err)
 			return nil, err
 		}
-	} else {
-		log.Errorf("target conn should been driver.QueryerContext or driver.Queryer")
-		return nil, errors.New("invalid conn")
+		return rows, nil
 	}
-	return rows, nil
+
+	log.Errorf("target conn should been driver.QueryerContext or driver.Queryer")
+	return nil, errors.New("invalid conn")
 }
 
 // buildAfterImageSQL build the SQL to query after image data
